@@ -1819,15 +1819,23 @@ static void do_textread(CMR* cmr)
 
 /* ---------- pure leaf functions, called directly (tie of the translated definitions, LeafGen.v) ----------
  * case: fn args..   record: fn nargs args.. result */
+/* verif hook of /repo (linear_algebra.c, guarded by DISCOPT_CMR_VERIF): the static gcdExt with external linkage */
+int64_t CMRverifGcdExt(int64_t a, int64_t b, int64_t* ps, int64_t* pt);
+
 static void do_leaf(CMR* cmr)
 {
   (void) cmr;
   long long fn = nx();
   long long a = nx();
-  long long b = (fn <= 1) ? nx() : 0;
+  int two = (fn <= 1) || (fn >= 11 && fn <= 13);
+  long long b = two ? nx() : 0;
   long long r = 0;
+  int64_t gs = 0, gt = 0;
   switch (fn)
   {
+    case 11: r = CMRverifGcdExt(a, b, &gs, &gt); break;
+    case 12: (void) CMRverifGcdExt(a, b, &gs, &gt); r = gs; break;
+    case 13: (void) CMRverifGcdExt(a, b, &gs, &gt); r = gt; break;
     case 0: r = moduloNonnegative((int) a, (int) b); break;
     case 1: r = moduloTernary((int) a, (int) b); break;
     case 2: r = projectSignedHash(a); break;
@@ -1843,9 +1851,9 @@ static void do_leaf(CMR* cmr)
   }
   rec_begin();
   oi(fn);
-  oi(fn <= 1 ? 2 : 1);
+  oi(two ? 2 : 1);
   oi(a);
-  if (fn <= 1)
+  if (two)
     oi(b);
   oi(r);
   rec_end();
